@@ -71,7 +71,8 @@ class Runner:
         self.work = work
         self.n = 0
 
-    def run(self, schema, tag, fail_at=None, errno_=28, mode="fail", populate_from=None, env_extra=None, cwd=None, prepare=None):
+    def run(self, schema, tag, fail_at=None, errno_=28, mode="fail", populate_from=None, env_extra=None, cwd=None, prepare=None,
+            relative=False):
         d = os.path.join(self.work, tag)
         shutil.rmtree(d, ignore_errors=True)
         out = os.path.join(d, "out")
@@ -88,8 +89,13 @@ class Runner:
                         "FI_FAIL_AT": str(fail_at), "FI_ERRNO": str(errno_), "FI_MODE": mode})
         if env_extra:
             env.update(env_extra)
+        out_arg, schema_arg = out, schema
+        if relative:
+            # the way a build script calls it: from the directory above the output, with relative paths
+            cwd = d
+            out_arg, schema_arg = "out", os.path.relpath(schema, d)
         try:
-            rc, txt = common.run_sbeppc(self.sbeppc, schema, out, env=env, cwd=cwd, timeout=120)
+            rc, txt = common.run_sbeppc(self.sbeppc, schema_arg, out_arg, env=env, cwd=cwd, timeout=120)
         except subprocess.TimeoutExpired:
             rc, txt = -999, "TIMEOUT"
         calls, fired = [], None
@@ -222,9 +228,13 @@ def run(t, budget=1.0):
                     f.write(data_[:0 if fi % 2 == 0 else len(data_) // 2])
             rc4, _, _, _, snap4 = runner.run(schema, "det4-%d" % si, populate_from=trunc)
             shutil.rmtree(trunc, ignore_errors=True)
-            res.count(4)
+            # a fresh directory somewhere else: deeper in the tree, and addressed by relative paths from another working directory
+            rc5, _, _, _, snap5 = runner.run(schema, "det5-%d/deeper/than/the/reference" % si)
+            rc6, _, _, _, snap6 = runner.run(schema, "det6-%d/rel" % si, relative=True)
+            res.count(6)
             for nm, rcx, sn in (("fresh-rerun", rc1, snap1), ("populated-rerun", rc2, snap2), ("stale-populated-rerun", rc3, snap3),
-                                ("truncated-populated-rerun", rc4, snap4)):
+                                ("truncated-populated-rerun", rc4, snap4), ("fresh-directory-at-another-depth", rc5, snap5),
+                                ("fresh-directory-relative-paths-other-cwd", rc6, snap6)):
                 res.nontriv(("det", sname, nm))
                 res.cls("determinism_" + nm)
                 if rcx != 0 or sn != ref:
